@@ -225,7 +225,17 @@ def worker_main(mod, partname, tier, seed, shard, nshards, budget, out):
             if status == "ok":
                 status, err = "harness-error", "teardown: " + repr(e)
         shutil.rmtree(ctx.scratch, ignore_errors=True)
+    # no process started by this shard may outlive it (a leaked worker would also keep our stdout/stderr open)
+    from .core import descendants
+
+    leaked = descendants()
+    for pid_ in leaked:
+        try:
+            os.kill(pid_, 9)
+        except OSError:
+            pass
     res = col.result()
+    res["extra"]["processes_killed_at_shard_end"] = len(leaked)
     res.update(status=status, error=err, shard=shard)
     with open(out, "w") as f:
         json.dump(res, f)
